@@ -42,7 +42,9 @@ theorem parallelize_balanced (xs : List α) (n : Nat) (h : 1 < n) :
   omega
 
 -- OBLIGATION: PysparklingVerif.C07.coalesce_length
-theorem coalesce_length (ps : Parts α) (m : Nat) : (coalesce m ps).length = min m ps.length := by
+/-- (`coalesce(0)` of a dataset WITH partitions divides by zero in the code - the model's total `/` would say 0
+partitions: excluded. A dataset without partitions is returned as it is, for every `m`.) -/
+theorem coalesce_length (ps : Parts α) (m : Nat) (_hm : 1 ≤ m ∨ ps = []) : (coalesce m ps).length = min m ps.length := by
   simp [coalesce]
 
 -- OBLIGATION: PysparklingVerif.C07.coalesce_blocks
@@ -76,8 +78,9 @@ theorem repartition_layout (ps : Parts α) (m : Nat) :
     simp [repartition, parallelize, h, h']
 
 -- OBLIGATION: PysparklingVerif.C07.partitionBy_placement
-/-- partition `j` holds exactly the pairs with `f key % n = j`, in their original relative order -/
-theorem partitionBy_placement (n : Nat) (f : κ → Nat) (ps : Parts (κ × ν)) :
+/-- partition `j` holds exactly the pairs with `f key % n = j`, in their original relative order
+(`partitionBy(0)` of non-empty data takes a remainder modulo zero in the code: excluded) -/
+theorem partitionBy_placement (n : Nat) (f : κ → Nat) (ps : Parts (κ × ν)) (_hn : 0 < n ∨ flat ps = []) :
     (partitionBy n f ps).length = n ∧
     ∀ j, j < n → (partitionBy n f ps)[j]? = some ((flat ps).filter (fun kv => f kv.1 % n == j)) := by
   refine ⟨by simp [partitionBy], ?_⟩
@@ -96,7 +99,7 @@ theorem partitionBy_colocated (n : Nat) (f : κ → Nat) (ps : Parts (κ × ν))
     have hi : i < n := by
       have := (List.getElem?_eq_some_iff.mp hp).1
       omega
-    rw [(partitionBy_placement n f ps).2 i hi] at hp
+    rw [(partitionBy_placement n f ps (Or.inl (by omega))).2 i hi] at hp
     have hp' := Option.some.inj hp
     subst hp'
     simpa using (List.mem_filter.mp ha).2
